@@ -9,7 +9,7 @@ PERSISTED = ["PublishAtLeastOnce", "PublishExactlyOnce", "PublishAtLeastOnceReta
 
 # which scenario families serve which property, and which clause prefixes a property owns
 FAMILIES = {
-    "C01": ["out", "restart", "wrap"], "C02": ["restart", "restart", "wrap"], "C03": ["out", "restart"], "C04": ["in", "inrestart"],
+    "C01": ["out", "restart", "wrap"], "C02": ["restart", "restart", "wrap"], "C03": ["out", "restart"], "C04": ["in", "inrestart", "inbig"],
     "C05": ["out", "restart", "wrap"], "C07": ["in"], "C10": ["connect", "req", "out", "in", "in"], "C11": ["req", "close", "connect", "hostile"],
     "C12": ["close"], "C13": ["hostile", "hostile", "in"], "C16": ["damage", "damagein"], "C17": ["out", "restart", "req", "wrap"],
     "C18": ["connect", "connect", "out"], "C14": ["req", "close", "out", "connect"], "C08": ["req", "out"],
@@ -150,6 +150,22 @@ def fam_in(rnd, i, thorough, restart=False):
     return b
 
 
+def fam_inbig(rnd, i, thorough):
+    """Exactly-once (and at-least-once) messages beyond the read buffer on connections that break: the retransmission
+    of a big message that the application owns already has to be skipped as a whole, and what follows it delivered."""
+    b = {"id": "inbig-%d" % i, "cfg": {"amax": 2, "emax": 2, "readbuf": 64}, "epilogue": "drain",
+         "procs": {"rd": {"kind": "reader", "big": rnd.choice(["read", "skip"])}},
+         "random": {"seed": rnd.randrange(1 << 30), "max": 400, "faults": rnd.choice([1, 2, 3]), "pwrite": 0.05, "precfail": 0.6, "pdial": 0.0,
+                    "pstore": 0.0, "pbreak": 0.05, "pstall": 0.05,
+                    "inbound": [{"qos": rnd.choice([2, 2, 2, 1]), "tag": 500 + k, "size": rnd.choice([70 + 3 * k, 150 + 3 * k, 70 + 3 * k, 8 + k])}
+                                for k in range(rnd.choice([2, 3, 4]))]}}
+    b["random"]["inbound"][0].update({"qos": 2, "size": rnd.choice([71, 151])})
+    if rnd.random() < 0.5:   # without PauseTimeout a read routine that lost its place in the stream waits for ever
+        b["cfg"]["nopause"] = True
+        b["random"]["pstall"] = 0.0
+    return b
+
+
 def fam_damagein(rnd, i, thorough):
     """A stop while exactly-once receptions are under way, damage to the inbound markers (or removal), adoption."""
     b = fam_in(rnd, i, thorough, restart=True)
@@ -228,7 +244,7 @@ def fam_wrap(rnd, i, thorough):
 
 GEN = {"hostile": fam_hostile, "wrap": fam_wrap, "out": fam_out, "restart": fam_restart, "req": fam_req, "close": fam_close, "in": fam_in, "connect": fam_connect,
        "damage": lambda r, i, t: fam_restart(r, i, t, damage=True),
-       "inrestart": lambda r, i, t: fam_in(r, i, t, restart=True), "damagein": fam_damagein}
+       "inrestart": lambda r, i, t: fam_in(r, i, t, restart=True), "damagein": fam_damagein, "inbig": fam_inbig}
 
 
 # Bounded instances of spec/MqttClient.tla: script, constants, export sampling (1 = whole transition cover)
@@ -243,6 +259,8 @@ MC = {
     "reqclose": dict(script="ScriptReqClose", amax=2, emax=2, conns=2, dial=0, write=1, read=0, store=0, calls=3, k_quick=300, k_thorough=60),
     "in":    dict(script="ScriptNone", inmsgs="In012", amax=2, emax=2, conns=2, dial=0, write=1, read=1, store=1, calls=7, k_quick=25, k_thorough=5),
     "in22":  dict(script="ScriptNone", inmsgs="In22", amax=2, emax=2, conns=3, dial=0, write=1, read=1, store=1, calls=7, k_quick=100, k_thorough=20),
+    # a retransmitted exactly-once PUBLISH is confirmed again while a request of another goroutine has lost the connection
+    "inw":   dict(script="ScriptP0", inmsgs="In2", amax=2, emax=2, conns=3, dial=0, write=2, read=0, store=0, calls=6, k_quick=100, k_thorough=20),
     "restart": dict(script="ScriptQ2", script2="Gen2Q2", stops=1, amax=2, emax=2, conns=2, dial=0, write=0, read=0, store=0, calls=4, k_quick=20, k_thorough=4),
     "restart2": dict(script="ScriptQ12", script2="Gen2Q1", stops=2, amax=2, emax=2, conns=2, dial=0, write=0, read=0, store=0, calls=4, k_quick=300, k_thorough=60),
     "damage": dict(script="ScriptQ12", script2="Gen2Q2", stops=1, damage=1, amax=2, emax=2, conns=2, dial=0, write=0, read=0, store=0, calls=4, k_quick=150, k_thorough=30),
@@ -263,6 +281,8 @@ MC = {
     "seedmix": dict(script="ScriptNew", initstore="StoreMix", initdamage=2, amax=4, emax=4, conns=2, dial=0, write=0, read=0, store=0, calls=12, k_quick=500, k_thorough=100),
     "seedwrap": dict(script="ScriptNew", initstore="StoreWrap", initdamage=2, amax=4, emax=4, conns=2, dial=0, write=0, read=0, store=0, calls=12, k_quick=400, k_thorough=80),
     "seedwrap0": dict(script="ScriptNew", initstore="StoreWrap", initdamage=0, amax=4, emax=4, conns=2, dial=0, write=0, read=1, store=0, calls=12, k_quick=800, k_thorough=160),
+    "seedwrapb0": dict(script="ScriptNew", initstore="StoreWrapB", initdamage=0, amax=4, emax=4, conns=2, dial=0, write=0, read=1, store=0, calls=12, k_quick=400, k_thorough=80),
+    "seedwrapb": dict(script="ScriptNew", initstore="StoreWrapB", initdamage=1, amax=4, emax=4, conns=2, dial=0, write=0, read=0, store=0, calls=12, k_quick=400, k_thorough=80),
     "seedrels": dict(script="ScriptNew", initstore="StoreRels", initdamage=1, amax=2, emax=2, conns=2, dial=0, write=1, read=1, store=0, calls=8, k_quick=200, k_thorough=40),
     "q12w2": dict(script="ScriptQ12", amax=2, emax=2, conns=2, dial=0, write=2, read=0, store=0, calls=4, k_quick=25, k_thorough=5),
     "quit":  dict(script="ScriptQuit", amax=2, emax=2, conns=2, dial=0, write=0, read=1, store=0, calls=4, k_quick=150, k_thorough=30),
@@ -270,9 +290,9 @@ MC = {
     "mixreq": dict(script="ScriptMixReq", amax=2, emax=2, conns=2, dial=1, write=1, read=0, store=0, calls=4, k_quick=100, k_thorough=20),
 }
 MC_FOR = {
-    "C01": ["one", "q2"], "C03": ["q2", "seedwrap0"], "C05": ["two", "seedwrap0"], "C10": ["one", "mixreq"], "C12": ["close", "reqclose", "disc", "discreq", "close_b"], "C17": ["max1", "one"],
+    "C01": ["one", "q2"], "C03": ["q2", "seedwrap0", "seedwrapb0"], "C05": ["two", "seedwrap0"], "C10": ["one", "mixreq", "inw"], "C12": ["close", "reqclose", "disc", "discreq", "close_b"], "C17": ["max1", "one"],
     "C18": ["one", "req"], "C14": ["req", "close", "quit", "unsub"], "C08": ["mixreq", "two", "q12w2"], "C11": ["req", "pings", "quit", "unsub", "devF25", "req_b"],
-    "C04": ["in22", "in", "inrestart"], "C07": ["in", "in22", "inrestart"], "C13": ["in"], "C02": ["restart", "restart2", "seedwrap", "seedrels"], "C16": ["damage", "damage3", "damage5", "damage24", "seedmix", "seedwrap"],
+    "C04": ["in22", "in", "inrestart"], "C07": ["in", "in22", "inrestart"], "C13": ["in"], "C02": ["restart", "restart2", "seedwrap", "seedrels", "seedwrapb0"], "C16": ["damage", "damage3", "damage5", "damage24", "seedmix", "seedwrap", "seedwrapb"],
 }
 INVARIANTS = ("TypeOK C01_NoForgedCompletion C03_ExactlyOnceDelivery C05_WireOrderIsIdOrder C07_AckedOnlyIfReturned C08_WholePackets C12_Signals C17_Bounded "
               "C18_ConnectFirst C11_PongIsOwn C02_AdoptMatchesLive C02_NoWarnings C16_ResendFindsRecords C16_PendingAreStored C16_NoKeyCollision")
@@ -330,6 +350,21 @@ def tlc_behaviours(ctx, name, cap):
     SCRIPTS[name] = (script, script2, inmsgs if isinstance(inmsgs, list) else [])
     initstore = pipeline.parse_cases(res.out, "INITSTORE")[0]
     seed = [{"key": int(k), "kind": v["kind"], "tag": v["tag"], "sseq": v["sseq"]} for k, v in sorted(initstore.items())] if isinstance(initstore, dict) else []
+    rare = []
+    if not c.get("bad"):   # an even choice among the places of the read routine's own writes
+        kinds = {}
+        for x in pipeline.parse_cases(res, "RARE", limit=20000):
+            kinds.setdefault(x.get("kind", ""), []).append(x)
+        rr = random.Random(ctx.seed + 5)
+        for v in kinds.values():
+            rr.shuffle(v)
+        while len(rare) < cap // 4 and any(kinds.values()):
+            for kd in sorted(kinds):
+                if kinds[kd] and len(rare) < cap // 4:
+                    rare.append(kinds[kd].pop())
+        rk = ctx.cov.setdefault("rare_steps_exported", {})
+        for x in rare:
+            rk[x.get("kind", "")] = rk.get(x.get("kind", ""), 0) + 1
     steps = [x["steps"] for x in cases]
     keys = [json.dumps(x, sort_keys=True, separators=(",", ":")) for x in steps]
     # a behaviour that is a prefix of another exported one is covered by it
@@ -342,7 +377,7 @@ def tlc_behaviours(ctx, name, cap):
         maximal.append(json.loads(kx))
     rnd = random.Random(ctx.seed)
     rnd.shuffle(maximal)
-    maximal = maximal[:cap]
+    maximal = ([x["steps"] for x in rare] + maximal)[:cap]
     def mkprocs(sc, reader):
         r = {reader: {"kind": "reader"}}
         for p, ops in sc.items():
@@ -387,7 +422,7 @@ def utxwrap():
             "procs": {"rd": {"kind": "reader"},
                       "wA": {"kind": "script", "ops": [{"m": "Subscribe", "tag": 1, "quit": "nil", "filters": ["hold/a"]}]},
                       "wB": {"kind": "script", "ops": [{"m": "Subscribe", "tag": 2, "quit": "nil", "filters": ["hold/b"]}]},
-                      "wC": {"kind": "script", "delay": 300, "repeat": 8194,
+                      "wC": {"kind": "script", "delay": 1000, "repeat": 8194,
                              "ops": [{"m": "Subscribe", "tag": 3, "quit": "nil", "filters": ["c"]}]}}}
 
 
@@ -401,7 +436,7 @@ def stallclose(k):
                               "c1": {"kind": "script", "delay": 150, "ops": [{"m": "Close", "quit": "nil"}]}}}
 
 
-EXTRA = {"C17": [utxwrap], "C12": [stallclose(1), stallclose(2)]}
+EXTRA = {"C17": [utxwrap], "C11": [utxwrap], "C12": [stallclose(1), stallclose(2)]}
 
 
 SCRIPTS = {}   # instance name -> (script, script of the second generation, inbound messages), as TLC printed them
@@ -627,6 +662,8 @@ def execute_and_judge(ctx, binary, behs, confirm=True):
                             ctx.save_replay("diverge-%s.json" % sb[e["case"] - 1]["id"], {"behaviour": sb[e["case"] - 1], "diverge": e})
                 elif '"e":"harness-panic"' in line:
                     raise vlib.Inconclusive("the harness itself failed: " + line[:300])
+                elif '"e":"harness-incomplete"' in line:
+                    raise vlib.Inconclusive("a long history did not reach its end in time (overloaded machine?): " + line[:300])
                 elif '"e":"mismatch"' in line:
                     if "select-race" in line:
                         nrace += 1
